@@ -43,6 +43,12 @@ CHECKS = {
  "C05": dict(cat="exploration", tech="panic guard + process journal + exact allocation meter + watchdog around real validate/handle of hostile gossip bytes for every node flavour",
    text="Six node flavours (core, Gnosis, Shutter-service, Primev, snapshot keyper, Gnosis access node) built from the repository's real handler sets receive structure-aware hostile inputs (boundary values per field, parallel-list length mismatches, wrong/empty flavour extras, short signatures, re-signed by a legitimate keyper so that handlers are reached) and raw/truncated/bit-flipped bytes, against 7 database states: no panic, no process death, allocation <= 16MiB+256*len, completion.",
    note="Go toolchain; pgmem; gossipnet nodes (libp2p replaced by direct delivery to validator + Handle); verif hooks for handler constructors", ref="§3 C05"),
+ "C18": dict(cat="exploration", tech="channel-arrival monitor on the decryption-trigger and shutdown channels of the real HTTP router under generated method/path/body requests; status-determinism check; concurrent pass",
+   text="The real router (setupRouter: OpenAPI validator, ConfigMiddleware, generated chi handlers, real handlers on pgmem) is driven with methods x path spellings derived from every OpenAPI template (parameter substitution, slashes, dot segments, percent-encoding, case, ;params, queries, prefixes) x bodies, each 3 times, in write-enabled and read-only configuration, plus a concurrent pass: in read-only mode nothing may ever arrive on the trigger/shutdown channels, read-only operations must answer from their handlers, equal requests get equal status codes; in write-enabled mode the write operations must reach their handlers (non-vacuity).",
+   note="Go toolchain; net/http/httptest; pgmem; kprapi verif hooks (VerifRouter, VerifTriggerChan, VerifShutdownChan)", ref="§3 C18"),
+ "C19": dict(cat="exploration", tech="reference selection + pointer model compared per operation with two real gnosis.Keyper objects on identical in-memory databases; byte-equality between keypers",
+   text="Two real Gnosis keypers with different identities and identical synced rows run histories of slot triggers (real triggerDecryption), keys messages received through the real DecryptionKeysHandler and sent through the real MessagingMiddleware, restarts and age increments over generated queues/pointer states; every requested identity list must equal the reference selection (slot identity first, queue order from the pointer, cumulative gas, at least one), both keypers must request byte-identical lists, and the pointer row must follow the reference model (p+k-1 with age 0; queue length when outdated/unknown).",
+   note="Go toolchain; pgmem; gossipnet Gnosis node; refimpl.GnosisSelect / refimpl.Pointer; gnosis verif hooks", ref="§3 C19"),
 }
 
 NOT_APPLICABLE = {
